@@ -17,9 +17,17 @@ structure PodA where
   node : Nat      -- 0 = not assigned
   ns : Nat
   wl : Nat        -- controller owner (0 = no ownerReference)
-  ready : Bool    -- IsPodActive ∧ IsPodReady
+  ready : Bool    -- k8spodutil.IsPodReady: the PodReady condition is True
   ann : Bool      -- carries descheduler.alpha.kubernetes.io/evict
+  term : Bool := false   -- metadata.deletionTimestamp is set (terminating)
+  phase : Nat := 0       -- status.phase: 0 Running · 1 Pending · 2 Succeeded · 3 Failed
 deriving Repr, DecidableEq
+
+/-- kubecontroller.IsPodActive: `PodSucceeded != phase && PodFailed != phase && DeletionTimestamp == nil` -/
+def podActive (q : PodA) : Bool := q.phase != 2 && q.phase != 3 && !q.term
+
+/-- the `continue` condition of getUnavailablePods: `IsPodActive(pod) && IsPodReady(pod)` -/
+def podAvail (q : PodA) : Bool := podActive q && q.ready
 
 /-- phase: 0 "" · 1 Pending · 2 Running · 3 Succeeded · 4 Failed · 5 Aborted -/
 structure JobA where
@@ -38,7 +46,17 @@ structure ArbCfg where
   maxMigr : Int     -- MaxMigratingPerWorkload (int form)
   maxUnav : Int     -- MaxUnavailablePerWorkload (int form)
   replicas : List (Nat × Nat)   -- workload → expectedReplicas (controller finder)
+  mmKind : Nat := 0   -- form of MaxMigratingPerWorkload: 0 nil / Int (sign of maxMigr) · 1 String "<maxMigr>%" · 2 malformed String
+  muKind : Nat := 0   -- same for MaxUnavailablePerWorkload
+  skip : List Nat := []      -- SkipEvictionGates (codes below; other gates are irrelevant for generated pods)
+  skipCER : Bool := false    -- SkipCheckExpectedReplicas
 deriving Repr
+
+/-- gate codes: 1 MaxUnavailablePerWorkload · 2 MaxMigratingPerWorkload · 3 MaxMigratingPerNode ·
+    4 MaxMigratingPerNamespace · 5 MaxMigratingGlobally · 6 ExpectedReplicas · 7 BarePods
+    (8 PVC · 9 LocalStorage · 10 SystemCritical · 11 PriorityThreshold · 12 LabelSelector · 13 Namespaces · 14 NodeFit:
+     accepted, no effect on the pods of this model).  filter.isEvictionGateSkipped -/
+def gateSkipped (cfg : ArbCfg) (g : Nat) : Bool := cfg.skip.contains g
 
 structure ArbSt where
   pods : List PodA := []
@@ -68,6 +86,17 @@ def getMax (replicas : Nat) (arg : Int) : Nat :=
     else v
   if v > replicas then replicas else v
 
+/-- util.GetMaxUnavailable / GetMaxMigrating for every form of the argument; `none` = the error of
+    intstr.GetScaledValueFromIntOrPercent (a String that is not "<n>%").  Percent: floor(v·replicas/100)
+    (roundUp = false), 0 ⇒ 1, then capped by replicas. -/
+def getMaxK (replicas : Nat) (kind : Nat) (arg : Int) : Option Nat :=
+  if kind = 2 then none
+  else if kind = 1 then
+    let v := arg.toNat * replicas / 100
+    let v := if v = 0 then 1 else v
+    some (if v > replicas then replicas else v)
+  else some (getMax replicas arg)
+
 def limitOff (m : Int) : Bool := m ≤ 0
 
 /-- jobs counted by filterMaxMigratingGlobally for pod `p` -/
@@ -75,7 +104,7 @@ def globalJobs (st : ArbSt) (ca : Bool) (p : PodA) : List JobA :=
   st.jobs.filter fun j => live st.arbitrated ca j && j.pod != 0 && j.pod != p.id
 
 def passGlobal (cfg : ArbCfg) (st : ArbSt) (ca : Bool) (p : PodA) : Bool :=
-  limitOff cfg.maxGlobal || decide (((globalJobs st ca p).length : Int) < cfg.maxGlobal)
+  gateSkipped cfg 5 || limitOff cfg.maxGlobal || decide (((globalJobs st ca p).length : Int) < cfg.maxGlobal)
 
 /-- existingPodMigrationJob(v): by pod UID or by namespace/name -/
 def hasJob (st : ArbSt) (ca : Bool) (v : PodA) : Bool :=
@@ -86,7 +115,7 @@ def nodePods (st : ArbSt) (ca : Bool) (p : PodA) : List PodA :=
   st.pods.filter fun v => v.id != p.id && v.node == p.node && hasJob st ca v
 
 def passNode (cfg : ArbCfg) (st : ArbSt) (ca : Bool) (p : PodA) : Bool :=
-  p.node == 0 || limitOff cfg.maxNode
+  gateSkipped cfg 3 || p.node == 0 || limitOff cfg.maxNode
     || (st.pods.filter fun v => v.node == p.node).isEmpty
     || decide (((nodePods st ca p).length : Int) < cfg.maxNode)
 
@@ -94,7 +123,7 @@ def nsJobs (st : ArbSt) (ca : Bool) (p : PodA) : List JobA :=
   st.jobs.filter fun j => live st.arbitrated ca j && j.pod != 0 && j.pod != p.id && j.ns == p.ns
 
 def passNs (cfg : ArbCfg) (st : ArbSt) (ca : Bool) (p : PodA) : Bool :=
-  limitOff cfg.maxNs || decide (((nsJobs st ca p).length : Int) < cfg.maxNs)
+  gateSkipped cfg 4 || limitOff cfg.maxNs || decide (((nsJobs st ca p).length : Int) < cfg.maxNs)
 
 def addNew (xs : List Nat) (x : Nat) : List Nat := if xs.contains x then xs else xs ++ [x]
 
@@ -109,29 +138,44 @@ def migrating (st : ArbSt) (ca : Bool) (p : PodA) : List Nat :=
 
 /-- getUnavailablePods over the controller finder's pod list (same owner, same namespace). -/
 def unavailable (st : ArbSt) (p : PodA) : List Nat :=
-  (st.pods.filter fun q => q.wl == p.wl && q.ns == p.ns && !q.ready).map (·.id)
+  (st.pods.filter fun q => q.wl == p.wl && q.ns == p.ns && !podAvail q).map (·.id)
 
+/-- filterMaxMigratingOrUnavailablePerWorkload, in the order of the code: both gates skipped ⇒ pass; no
+    controller ⇒ pass; GetMaxMigrating / GetMaxUnavailable error ⇒ refuse; migrating test (unless its gate is
+    skipped); unavailable gate skipped ⇒ pass; unavailable-or-migrating test. -/
 def passWorkload (cfg : ArbCfg) (st : ArbSt) (ca : Bool) (p : PodA) : Bool :=
+  let skipM := gateSkipped cfg 2
+  let skipU := gateSkipped cfg 1
+  if skipM && skipU then true else
   if p.wl = 0 then true else
   let r := lookup cfg.replicas p.wl
-  let mm := getMax r cfg.maxMigr
-  let mu := getMax r cfg.maxUnav
-  let mig := migrating st ca p
-  if mig.length > 0 && mig.length ≥ mm then false
-  else
-    let un := mig.foldl addNew (unavailable st p)
-    !(un.length ≥ mu)
+  match (if skipM then some 0 else getMaxK r cfg.mmKind cfg.maxMigr) with
+  | none => false
+  | some mm =>
+    match (if skipU then some 0 else getMaxK r cfg.muKind cfg.maxUnav) with
+    | none => false
+    | some mu =>
+      let mig := migrating st ca p
+      if !skipM && mig.length > 0 && mig.length ≥ mm then false
+      else if skipU then true
+      else
+        let un := mig.foldl addNew (unavailable st p)
+        !(un.length ≥ mu)
 
-/-- filterExpectedReplicas (SkipCheckExpectedReplicas unset) -/
+/-- filterExpectedReplicas: gate skipped ⇒ pass; no controller ⇒ pass; a limit that cannot be evaluated ⇒
+    reject; unless SkipCheckExpectedReplicas: replicas = 1 or = maxMigrating or = maxUnavailable ⇒ reject. -/
 def expectedReplicasOK (cfg : ArbCfg) (p : PodA) : Bool :=
+  if gateSkipped cfg 6 then true else
   if p.wl = 0 then true else
   let r := lookup cfg.replicas p.wl
-  !(r == 1 || r == getMax r cfg.maxMigr || r == getMax r cfg.maxUnav)
+  match getMaxK r cfg.mmKind cfg.maxMigr, getMaxK r cfg.muKind cfg.maxUnav with
+  | some mm, some mu => cfg.skipCER || !(r == 1 || r == mm || r == mu)
+  | _, _ => false
 
-/-- nonRetryablePodFilter on the pods the harness builds (only the ownerRef constraint of
-    EvictorFilter and filterExpectedReplicas can fail). -/
+/-- nonRetryablePodFilter on the pods the harness builds: of EvictorFilter only the ownerRef constraint
+    (dropped when the BarePods gate is skipped) and "pod is terminating" can fail; then filterExpectedReplicas. -/
 def nonRetryable (cfg : ArbCfg) (p : PodA) : Bool :=
-  p.ann || (p.wl != 0 && expectedReplicasOK cfg p)
+  p.ann || ((p.wl != 0 || gateSkipped cfg 7) && !p.term && expectedReplicasOK cfg p)
 
 def retryableChecks (cfg : ArbCfg) (st : ArbSt) (ca : Bool) (p : PodA) : Bool :=
   passGlobal cfg st ca p && passNode cfg st ca p && passNs cfg st ca p && passWorkload cfg st ca p
